@@ -183,7 +183,7 @@ func monC13(c *drv.Ctx) {
 		return gen.TreeOpts{MaxDepth: 1 + cs.R.Intn(5), MaxElems: 5, Canonical: true, AnyFieldIDs: true, BigStrings: cs.R.Intn(30) == 0}
 	}
 	// (1) random field sequences
-	c.Stage("sequences", c.Pick(20000, 2000000), false, func(cs *drv.Case) {
+	c.Stage("sequences", c.Pick(200000, 3000000), false, func(cs *drv.Case) {
 		r := cs.R
 		n := 1 + r.Intn(5)
 		fields := make([]ref.Field, n)
